@@ -150,7 +150,10 @@ class vhdlFile:
             pass
 
         try:
-            design_file.tokenize(self.lAllObjects)
+            try:
+                design_file.tokenize(self.lAllObjects)
+            except IndexError:
+                raise exceptions.ClassifyError("Error: Unexpected end of file detected while parsing file " + str(self.filename))
         except exceptions.ClassifyError as e:
             if self.commandLineArguments.force_fix and self.commandLineArguments.fix:
                 print(e.message)
